@@ -14,7 +14,10 @@ RULE = ("packable types (all leaves incl. key_hash/key/address/signature/timesta
         "= valid packed data mutated (truncation, extension, bit flip, byte set, length-prefix edit, Zarith padding, "
         "insert/delete, prefix byte). Oracle: value.pack() and the PACK instruction == reference PACK (0x05 + optimized "
         "binary Micheline, combs >=4 as sequences) byte for byte; T.unpack / UNPACK T return an equal value; for a "
-        "mutated string the strict reference decoder rejects, UNPACK T returns None and T.unpack raises. Non-trivial: "
+        "mutated string the strict reference decoder rejects, UNPACK T returns None and T.unpack raises; cross-type cases: a value "
+        "packed at one leaf type (bytes/key_hash/address/chain_id, int/nat/mutez/timestamp; raw bytes of lengths 0..27 with "
+        "address-like heads) is unpacked at another leaf type of the same Micheline kind: None when a leaf is not a valid value "
+        "of the target type (wrong length, tag, sign, range), the same bytes back when it is. Non-trivial: "
         "value contains a type with an optimized form or a comb >= 3; mutated string rejected for a reason other than "
         "its first byte. Distinct = distinct (type, value) / byte string.")
 
@@ -133,9 +136,86 @@ def check_bytes(case):
     return reason
 
 
+BYTES_KIND = ["bytes", "key_hash", "address", "chain_id"]
+INT_KIND = ["int", "nat", "mutez", "timestamp"]
+
+
+def leaf_verdict(p, m):
+    """Is the optimized Micheline leaf m (an int or bytes literal) a value of leaf type p? 'valid' / 'invalid' / 'unknown'
+    (unknown: Tezos' exact rule is not asserted here, e.g. deprecated address tags or exotic entrypoint suffixes)."""
+    if p in INT_KIND:
+        if "int" not in m:
+            return "invalid" if ("bytes" in m or isinstance(m, list) or "prim" in m) and p != "timestamp" else "unknown"
+        n = int(m["int"])
+        if p == "nat":
+            return "valid" if n >= 0 else "invalid"
+        if p == "mutez":
+            return "valid" if 0 <= n < 2 ** 63 else "invalid"
+        return "valid"
+    if "bytes" not in m:
+        return "unknown"  # a string form: checked elsewhere
+    b = bytes.fromhex(m["bytes"])
+    if p == "bytes":
+        return "valid"
+    if p == "key_hash":
+        return "valid" if len(b) == 21 and b[0] <= 3 else "invalid"
+    if p == "chain_id":
+        return "valid" if len(b) == 4 else "invalid"
+    if p == "address":
+        if len(b) < 22 or b[0] > 4 or (b[0] == 0 and b[1] > 3):
+            return "invalid"
+        ok_head = (b[0] == 0) or (b[0] in (1, 3) and b[21] == 0)
+        suffix = b[22:]
+        ok_tail = not suffix or (len(suffix) <= 31 and suffix.isalnum() and suffix != b"default")
+        return "valid" if ok_head and ok_tail else "unknown"
+    return "unknown"
+
+
+def check_cross(case):
+    """PACK at one leaf type, UNPACK at another leaf type of the same Micheline kind (inside the same wrapper)."""
+    ta, tb = case["ta"], case["tb"]
+    v = rv.from_micheline(ta, case["v"])
+    data = rv.pack(ta, v)
+    la, lb = case["leaf_a"], case["leaf_b"]
+    leaves = []
+
+    def walk(t, m):  # collect the optimized leaves standing where the substituted leaf type stands
+        p, a = t["prim"], rv.targs(t)
+        if p == "option":
+            if isinstance(m, dict) and m.get("prim") == "Some":
+                walk(a[0], m["args"][0])
+        elif p == "pair":
+            walk(a[0], m["args"][0])
+            walk(a[1], m["args"][1])
+        elif p == "list":
+            for x in m:
+                walk(a[0], x)
+        elif p == la:
+            leaves.append(m)
+    walk(ta, rv.to_micheline(ta, v, "optimized"))
+    verdicts = [leaf_verdict(lb, m) for m in leaves]
+    res = _unpack_instr(tb, data, case)
+    what = "PACK at %s then UNPACK at %s of %s (bytes %s)" % (_ts(ta), _ts(tb), case["v"], data.hex())
+    if "invalid" in verdicts:
+        if res is not NONE:
+            raise Violation("%s returned Some %r; Tezos returns None (a %s leaf is not a valid %s)" % (what, res, la, lb), case,
+                            "cross-accepts-invalid:%s->%s" % (la, lb))
+        return "none"
+    if all(x == "valid" for x in verdicts):
+        if res is NONE:
+            raise Violation("%s returned None; every leaf is a valid %s" % (what, lb), case, "cross-rejects-valid:%s->%s" % (la, lb))
+        back = rv.pack(tb, res)
+        if back != data:
+            raise Violation("%s returned a value that packs to %s" % (what, back.hex()), case, "cross-value:%s->%s" % (la, lb))
+        return "some"
+    return "unknown"
+
+
 def oracle(case):
     if case["mode"] == "value":
         return check_value(case)
+    if case["mode"] == "cross":
+        return check_cross(case)
     return check_bytes(case)
 
 
@@ -163,6 +243,35 @@ def byte_cases(draw, depth):
     return {"mode": "bytes", "t": t, "data": mutated.hex(), "mut": kind}
 
 
+@st.composite
+def cross_cases(draw):
+    kind = draw(st.sampled_from([BYTES_KIND, BYTES_KIND, INT_KIND]))
+    la = draw(st.sampled_from(kind))
+    lb = draw(st.sampled_from([x for x in kind if x != la]))
+    wrap = draw(st.sampled_from(["leaf", "leaf", "option", "pair", "list"]))
+
+    def w(leaf):
+        t = rv.T(leaf)
+        return {"leaf": t, "option": rv.T("option", t), "pair": rv.T("pair", rv.T("unit"), t), "list": rv.T("list", t)}[wrap]
+    ta = w(la)
+    if la == "bytes":  # raw bytes shaped like the fixed-length forms
+        n = draw(st.sampled_from([0, 3, 4, 5, 20, 21, 21, 22, 22, 23, 27]))
+        head = bytes([draw(st.integers(0, 5)), draw(st.integers(0, 5))])
+        body = draw(st.binary(min_size=n, max_size=n))
+        tail = draw(st.sampled_from([b"", b"\x00", b"abc", b"default"]))
+        leaf_v = (head + body)[:n] if draw(st.booleans()) else (head + body[2:-1] + b"\x00")[:n] + tail
+        v = {"leaf": leaf_v, "option": ("Some", leaf_v), "pair": ((), leaf_v), "list": [leaf_v]}[wrap]
+    else:
+        v = draw(gt.values(ta))
+    return {"mode": "cross", "ta": ta, "tb": w(lb), "leaf_a": la, "leaf_b": lb, "v": rv.to_micheline(ta, v)}
+
+
+def _prop_cross(case, stats):
+    res = oracle(case)
+    stats.case(case, res in ("none", "some"), "cross:%s->%s:%s" % (case["leaf_a"], case["leaf_b"], res),
+               sample={"from": _ts(case["ta"]), "to": _ts(case["tb"]), "value": case["v"], "result": res})
+
+
 def _prop(case, stats):
     res = oracle(case)
     t = case["t"]
@@ -180,6 +289,7 @@ def run(h):
     sh = 8 if h.quick else 16
     h.run_given(lambda: value_cases(depth), _prop, h.n(250, 8000), shards=sh, name="values")
     h.run_given(lambda: byte_cases(depth), _prop, h.n(400, 15000), shards=sh, name="bytes")
+    h.run_given(cross_cases, _prop_cross, h.n(250, 8000), shards=sh, name="cross")
     if not h.quick:
         from checks import c04_fuzz
         c04_fuzz.campaign(h)
